@@ -114,7 +114,9 @@ Proof.
     assert (R2 : (0 <= rnd32 (RV sh * RV fs) <= IZR (2 ^ k))%R).
     { replace 0%R with (IZR 0) at 1 by reflexivity.
       apply rnd_between; [apply fmt_int; lia|apply fmt_pow2Z; lia|].
-      rewrite E2, mult_IZR in R1. cbn [IZR IPR]. nra. }
+      rewrite E2, mult_IZR in R1. destruct Hs as [Hs0 Hs1], R1 as [R10 R11]. split.
+      - apply Rmult_le_pos; assumption.
+      - apply Rle_trans with (/ 2 * (2 * IZR (2 ^ k)))%R; [apply Rmult_le_compat; assumption|lra]. }
     destruct (fl_mul_ok sh fs (2 ^ k) Fs Ff) as (Fp & Vp & _); [apply abs_le_of_between; exact R2| |].
     { apply Z.pow_lt_mono_r; lia. }
     rewrite <- Vp in R2.
